@@ -27,6 +27,7 @@ type c14Case struct {
 	Files    []int       `json:"files"`  // per node: 0 root, 1 extra1, 2 extra2
 	NodeMask int         `json:"node_mask"`
 	PropMask int         `json:"prop_mask"`
+	Kind     string      `json:"kind,omitempty"` // mode kinds: which constraint kind produces the results and traces
 }
 
 var c14Files = []string{"file:///root.raml", "file:///lib/extra1.raml", "file:///lib/extra2.raml"}
@@ -228,6 +229,10 @@ func c14GenCases(tier string, emit func(c14Case)) {
 			emit(c14Case{Mode: "many", NodeMask: n})
 		}
 	}
+	// axis K: every constraint kind (results and traces of each kind carry the location)
+	for _, k := range c14KindSpecs() {
+		emit(c14Case{Mode: "kinds", Kind: k.name})
+	}
 }
 
 // ---- documents shared with C12 ----
@@ -239,6 +244,9 @@ func c14SharedCases() []c14Case {
 		i := 0
 		c14GenCases("quick", func(cs c14Case) {
 			i++
+			if cs.Mode == "kinds" {
+				return
+			}
 			if i%97 == 0 || cs.Mode != "full" && i%7 == 0 {
 				c14Shared = append(c14Shared, cs)
 			}
@@ -262,94 +270,9 @@ func c14NamedDoc(name string) (*Graph, string) {
 }
 
 // ---- the check ----
-
-func init() {
-	Register(Meta{
-		ID: "C14", Level: "exploration",
-		Rule:        "AMF-shaped source maps generated for a 6-node skeleton (2 nodes failing at top level, 1 failing through a nested child so a sub-result and its trace carry the child's location, passing nodes): axis R = every 4-tuple (start line/column, end line/column) over a magnitude alphabet (0 .. 2^31 .. 2^53+1 [.. 10^20]); axis F = every assignment of nodes to {root file, 2 additional files} (1 or several additional locations, 1 or several elements each); axis E = every subset of nodes having a node-level entry x property-level-only entries, with and without BaseUnitSourceInformation; and no source maps. Oracle: location present iff node-level entry, numbers equal as decimal strings, uri = declaring file; and the report equals the source-map-free report once all location members are deleted. Non-trivial = document where at least one reported node has a location and one does not, or any axis-R/F case with locations; distinct by document text.",
-		Assumptions: []string{"one lexical entry per node (AMF emits one)"},
-	}, func(tier string, emit func(c14Case)) { c14GenCases(tier, emit) }, c14Run)
-}
-
-var c14Query *rego.PreparedEvalQuery
-var c14Baseline string
-
-func stripLocations(v any) any {
-	switch x := v.(type) {
-	case map[string]any:
-		out := map[string]any{}
-		for k, e := range x {
-			if k == "location" {
-				continue
-			}
-			out[k] = stripLocations(e)
-		}
-		return out
-	case []any:
-		out := make([]any, len(x))
-		for i, e := range x {
-			out[i] = stripLocations(e)
-		}
-		return out
-	}
-	return v
-}
-
-func canonStripped(text string) (string, error) {
-	var top any
-	dec := json.NewDecoder(strings.NewReader(text))
-	dec.UseNumber()
-	if err := dec.Decode(&top); err != nil {
-		return "", err
-	}
-	b, _ := json.Marshal(stripLocations(top))
-	return string(b), nil
-}
-
-func c14Run(c *Ctx, cs c14Case) {
-	if c14Query == nil {
-		q, cr := Compile(c14Profile())
-		if q == nil {
-			c.Violate("C14 profile rejected: "+firstLine(cr.ErrString()), c14Profile(), nil)
-			return
-		}
-		c14Query = q
-		_, plain, _ := c14Build(c14Case{Mode: "nosm"})
-		r := ValidateCompiled(q, plain)
-		if r.Err != nil || r.Panic != nil {
-			c.Violate("C14 baseline failed: "+firstLine(r.ErrString()), "", nil)
-			return
-		}
-		c14Baseline, _ = canonStripped(r.Report)
-	}
-	_, data, exp := c14Build(cs)
-	res := ValidateCompiled(c14Query, data)
-	c.Eval(1)
-	if res.Panic != nil || res.Err != nil {
-		c.Violate("C14 validation failed: "+firstLine(res.ErrString()), data, nil)
-		return
-	}
-	var top any
-	dec := json.NewDecoder(strings.NewReader(res.Report))
-	dec.UseNumber()
-	if err := dec.Decode(&top); err != nil {
-		c.Violate("C14 report not JSON", err.Error(), nil)
-		return
-	}
-	baseline := c14Baseline
-	if cs.Mode == "many" {
-		plain := &Graph{}
-		for i := 0; i < cs.NodeMask; i++ {
-			plain.Add(fmt.Sprintf("%sm%d", EX, i), EX+"T")
-		}
-		rb := ValidateCompiled(c14Query, plain.FlatJSONLD())
-		baseline, _ = canonStripped(rb.Report)
-	}
-	// differential: otherwise unaffected
-	if st, _ := canonStripped(res.Report); st != baseline {
-		c.Violate("C14 source maps change more than the location members", "with:\n"+tailStr(st, 2500)+"\nwithout:\n"+tailStr(c14Baseline, 2500), nil)
-	}
-	nres, withLoc, withoutLoc := 0, 0, 0
+// c14Walk checks every result, trace entry and sub-result of a report against the expected location of its focus node.
+func c14Walk(c *Ctx, cs c14Case, report string, exp map[string]*c14Loc) (nres, withLoc, withoutLoc int, ok bool) {
+	res := CallRes{Report: report}
 	bad := func(sig, f string, a ...any) {
 		c.Violate("C14 "+sig, fmt.Sprintf(f, a...)+"\ncase: "+JSON(cs)+"\nreport:\n"+tailStr(res.Report, 2500), nil)
 	}
@@ -415,17 +338,252 @@ func c14Run(c *Ctx, cs c14Case) {
 	rep, err := ParseReport(res.Report)
 	if err != nil {
 		bad("report malformed", "%v", err)
-		return
+		return nres, withLoc, withoutLoc, false
 	}
 	for i, r := range rep.Results {
 		walkResult(r.Raw, fmt.Sprintf("/result/%d", i))
 	}
+	return nres, withLoc, withoutLoc, true
+}
+
+func init() {
+	Register(Meta{
+		ID: "C14", Level: "exploration",
+		Rule:        "AMF-shaped source maps generated for a 6-node skeleton (2 nodes failing at top level, 1 failing through a nested child so a sub-result and its trace carry the child's location, passing nodes): axis R = every 4-tuple (start line/column, end line/column) over a magnitude alphabet (0 .. 2^31 .. 2^53+1 [.. 10^20]); axis F = every assignment of nodes to {root file, 2 additional files} (1 or several additional locations, 1 or several elements each); axis E = every subset of nodes having a node-level entry x property-level-only entries, with and without BaseUnitSourceInformation; and no source maps; axis K = every constraint kind of the C01 atom catalogue (plain, negated, as a condition) plus uniqueValues on a path, nested/atLeast/atMost, alternative/inverse/sequence paths, custom Rego in three forms, and/or/not/if-then-else, each on its own small graph with lexical entries on two thirds of the nodes (some declared in an additional file). Oracle: location present iff node-level entry, numbers equal as decimal strings, uri = declaring file; and the report equals the source-map-free report once all location members are deleted. Non-trivial = document where at least one reported node has a location and one does not, or any axis-R/F case with locations; distinct by document text.",
+		Assumptions: []string{"one lexical entry per node (AMF emits one)"},
+	}, func(tier string, emit func(c14Case)) { c14GenCases(tier, emit) }, c14Run)
+}
+
+var c14Query *rego.PreparedEvalQuery
+var c14Baseline string
+
+func stripLocations(v any) any {
+	switch x := v.(type) {
+	case map[string]any:
+		out := map[string]any{}
+		for k, e := range x {
+			if k == "location" {
+				continue
+			}
+			out[k] = stripLocations(e)
+		}
+		return out
+	case []any:
+		out := make([]any, len(x))
+		for i, e := range x {
+			out[i] = stripLocations(e)
+		}
+		return out
+	}
+	return v
+}
+
+func canonStripped(text string) (string, error) {
+	var top any
+	dec := json.NewDecoder(strings.NewReader(text))
+	dec.UseNumber()
+	if err := dec.Decode(&top); err != nil {
+		return "", err
+	}
+	b, _ := json.Marshal(stripLocations(top))
+	return string(b), nil
+}
+
+func c14Run(c *Ctx, cs c14Case) {
+	if cs.Mode == "kinds" {
+		c14RunKind(c, cs)
+		return
+	}
+	if c14Query == nil {
+		q, cr := Compile(c14Profile())
+		if q == nil {
+			c.Violate("C14 profile rejected: "+firstLine(cr.ErrString()), c14Profile(), nil)
+			return
+		}
+		c14Query = q
+		_, plain, _ := c14Build(c14Case{Mode: "nosm"})
+		r := ValidateCompiled(q, plain)
+		if r.Err != nil || r.Panic != nil {
+			c.Violate("C14 baseline failed: "+firstLine(r.ErrString()), "", nil)
+			return
+		}
+		c14Baseline, _ = canonStripped(r.Report)
+	}
+	_, data, exp := c14Build(cs)
+	res := ValidateCompiled(c14Query, data)
+	c.Eval(1)
+	if res.Panic != nil || res.Err != nil {
+		c.Violate("C14 validation failed: "+firstLine(res.ErrString()), data, nil)
+		return
+	}
+	var top any
+	dec := json.NewDecoder(strings.NewReader(res.Report))
+	dec.UseNumber()
+	if err := dec.Decode(&top); err != nil {
+		c.Violate("C14 report not JSON", err.Error(), nil)
+		return
+	}
+	baseline := c14Baseline
+	if cs.Mode == "many" {
+		plain := &Graph{}
+		for i := 0; i < cs.NodeMask; i++ {
+			plain.Add(fmt.Sprintf("%sm%d", EX, i), EX+"T")
+		}
+		rb := ValidateCompiled(c14Query, plain.FlatJSONLD())
+		baseline, _ = canonStripped(rb.Report)
+	}
+	// differential: otherwise unaffected
+	if st, _ := canonStripped(res.Report); st != baseline {
+		c.Violate("C14 source maps change more than the location members", "with:\n"+tailStr(st, 2500)+"\nwithout:\n"+tailStr(c14Baseline, 2500), nil)
+	}
+	nres, withLoc, withoutLoc, ok := c14Walk(c, cs, res.Report, exp)
+	if !ok {
+		return
+	}
 	if nres < 4 && cs.Mode != "many" || cs.Mode == "many" && nres != cs.NodeMask {
-		bad("fewer results than the skeleton produces", "results+subresults=%d", nres)
+		c.Violate("C14 fewer results than the skeleton produces", fmt.Sprintf("results+subresults=%d\ncase: %s\nreport:\n%s", nres, JSON(cs), tailStr(res.Report, 2500)), nil)
 	}
 	if withLoc > 0 && (withoutLoc > 0 || cs.PropMask == 0) {
 		c.Nontrivial(data)
 	}
 	c.Outcome(fmt.Sprintf("mode=%s withLoc>0=%v withoutLoc>0=%v", cs.Mode, withLoc > 0, withoutLoc > 0))
+	c.Sample(cs)
+}
+
+// ---- axis K: every constraint kind -------------------------------------------
+
+// c14KindSpec: a profile whose results (and traces) come from one constraint kind, and a graph on which it fails.
+type c14KindSpec struct {
+	name string
+	prof string
+	g    *Graph
+}
+
+func c14KindSpecs() []c14KindSpec {
+	var out []c14KindSpec
+	for _, k := range c01AtomKinds() {
+		prof, g := c01AtomProfile(k)
+		out = append(out, c14KindSpec{"atom " + k.name, prof, g})
+	}
+	one := func(name string, body *YMap, g *Graph) {
+		v := M("message", "m {{ex.v}}")
+		hasTarget := false
+		for _, k := range body.Keys {
+			hasTarget = hasTarget || k == "targetClass"
+		}
+		if !hasTarget {
+			v.Set("targetClass", "ex.T")
+		}
+		for i, k := range body.Keys {
+			v.Set(k, body.Vals[i])
+		}
+		out = append(out, c14KindSpec{name, EmitYAML(M("profile", "c14 kinds", "prefixes", M("ex", EX), "violation", strs("v"), "validations", M("v", v))), g})
+	}
+	kids := func() *Graph {
+		g := &Graph{}
+		g.Add(nid(0), EX+"T").P(EX+"c", Ref(EX+"k0"), Ref(EX+"k1"))
+		g.Add(nid(1), EX+"T").P(EX+"c", Ref(EX+"k0"), Ref(EX+"k2"))
+		g.Add(nid(2), EX+"T").P(EX+"v", "x")
+		g.Add(nid(3), EX+"T").P(EX+"c", Ref(EX+"k2"), Ref(EX+"k3")).P(EX+"w", "y")
+		g.Add(EX+"k0", EX+"C").P(EX+"v", "a")
+		g.Add(EX+"k1", EX+"C").P(EX+"v", "a")
+		g.Add(EX+"k2", EX+"C").P(EX+"v", "b")
+		g.Add(EX+"k3", EX+"C")
+		return g
+	}
+	inner := M("propertyConstraints", M("ex.v", M("in", strs("b"))))
+	one("uniqueValues on a path", M("propertyConstraints", M("ex.c / ex.v", M("uniqueValues", true))), kids())
+	one("nested", M("propertyConstraints", M("ex.c", M("nested", inner))), kids())
+	one("atLeast", M("propertyConstraints", M("ex.c", M("atLeast", M("count", 2, "validation", inner)))), kids())
+	one("atMost", M("propertyConstraints", M("ex.c", M("atMost", M("count", 0, "validation", inner)))), kids())
+	one("alternative path", M("propertyConstraints", M("ex.v | ex.w", M("minCount", 1))), kids())
+	one("inverse path", M("targetClass", "ex.C", "propertyConstraints", M("ex.c^", M("maxCount", 1))), kids())
+	one("sequence path with in", M("propertyConstraints", M("ex.c / ex.v", M("in", strs("b")))), kids())
+	one("custom rego", M("rego", "$result = false\n"), kids())
+	one("custom rego with message", M("rego", M("code", "$result = false\n", "message", "custom")), kids())
+	one("rego under a path", M("propertyConstraints", M("ex.v", M("rego", "$result = false\n"))), kids())
+	one("or of two kinds", M("or", []any{M("propertyConstraints", M("ex.v", M("minCount", 1))), M("propertyConstraints", M("ex.w", M("pattern", "^z")))}), kids())
+	one("and of two kinds", M("and", []any{M("propertyConstraints", M("ex.v", M("minCount", 1))), M("propertyConstraints", M("ex.w", M("minCount", 1)))}), kids())
+	one("not", M("not", M("propertyConstraints", M("ex.v", M("minCount", 1)))), kids())
+	one("if-then-else", M("if", M("propertyConstraints", M("ex.v", M("minCount", 1))), "then", M("propertyConstraints", M("ex.w", M("minCount", 1))), "else", M("propertyConstraints", M("ex.c", M("minCount", 1)))), kids())
+	return out
+}
+
+func c14KindByName(name string) c14KindSpec {
+	for _, k := range c14KindSpecs() {
+		if k.name == name {
+			return k
+		}
+	}
+	panic("harness: unknown C14 kind " + name)
+}
+
+// c14RunKind: every node of the kind's graph whose position is not a multiple of 3 gets a lexical entry (numbers derived
+// from its position; every fourth node is declared in an additional file); each result, trace entry and sub-result
+// about such a node must carry exactly that location, the others none; and deleting the locations gives the report of
+// the same graph without source maps.
+func c14RunKind(c *Ctx, cs c14Case) {
+	k := c14KindByName(cs.Kind)
+	plain := k.g.FlatJSONLD()
+	g := k.g
+	exp := map[string]*c14Loc{}
+	busi := g.Add(EX+"BaseUnitSourceInformation", docNS+"BaseUnitSourceInformation")
+	busi.P(docNS+"rootLocation", c14Files[0])
+	extra := g.Add(EX+"BaseUnitSourceInformation/location_0", docNS+"LocationInformation")
+	extra.P(docNS+"location", c14Files[1])
+	nExtra := 0
+	ids := []string{}
+	for _, n := range g.Nodes {
+		ids = append(ids, n.ID)
+	}
+	for i, id := range ids {
+		if strings.HasPrefix(id, EX+"BaseUnitSourceInformation") || i%3 == 2 {
+			continue
+		}
+		sm := g.Add(id+"/source-map", smNS+"SourceMap")
+		e := g.Add(id + "/source-map/lexical/element_0")
+		r := [4]string{fmt.Sprint(3*i + 1), fmt.Sprint(100 + i), fmt.Sprint(3*i + 2), fmt.Sprint(200 + 7*i)}
+		e.P(smNS+"element", id).P(smNS+"value", fmt.Sprintf("[(%s,%s)-(%s,%s)]", r[0], r[1], r[2], r[3]))
+		sm.P(smNS+"lexical", Ref(e.ID))
+		g.Node(id).P(smNS+"sources", Ref(sm.ID))
+		loc := &c14Loc{Range: r, URI: c14Files[0], HasURI: true}
+		if i%4 == 1 {
+			extra.P(docNS+"elements", Ref(id))
+			loc.URI = c14Files[1]
+			nExtra++
+		}
+		exp[id] = loc
+	}
+	if nExtra > 0 {
+		busi.P(docNS+"additionalLocations", Ref(extra.ID))
+	}
+	q, cr := Compile(k.prof)
+	if q == nil {
+		c.Violate("C14 profile rejected: "+firstLine(cr.ErrString()), k.prof, nil)
+		return
+	}
+	res := ValidateCompiled(q, g.FlatJSONLD())
+	base := ValidateCompiled(q, plain)
+	c.Eval(2)
+	if res.Panic != nil || res.Err != nil || base.Panic != nil || base.Err != nil {
+		c.Violate("C14 validation failed: "+firstLine(res.ErrString()+base.ErrString()), k.prof, nil)
+		return
+	}
+	st, _ := canonStripped(res.Report)
+	bt, _ := canonStripped(base.Report)
+	if st != bt {
+		c.Violate("C14 source maps change more than the location members", "kind "+cs.Kind+"\nwith:\n"+tailStr(st, 2500)+"\nwithout:\n"+tailStr(bt, 2500), nil)
+	}
+	nres, withLoc, withoutLoc, ok := c14Walk(c, cs, res.Report, exp)
+	if !ok {
+		return
+	}
+	if nres == 0 {
+		panic("harness: C14 kind " + cs.Kind + " produces no result; the kind is not exercised\n" + k.prof)
+	}
+	if withLoc > 0 && withoutLoc > 0 {
+		c.Nontrivial("kind " + cs.Kind)
+	}
+	c.Outcome(fmt.Sprintf("mode=kinds withLoc>0=%v withoutLoc>0=%v", withLoc > 0, withoutLoc > 0))
 	c.Sample(cs)
 }
